@@ -62,7 +62,17 @@ def tree_case(case):
     ini = must("stdlib-read", tim.read_ini, text)
     d = diff(tim.expected_ini(desc, main), ini)
     check(d is None, "file-differs-from-reference-model", lambda: "reference INI model vs file read by RawConfigParser: %s" % d)
-    poison(obj), poison(again)
+    # the tree that was just written is changed (other arch, later timestamp, one top-level variant replaced) and written again
+    desc2 = must("modify-existing-tree", tim.modify_ti, desc, obj, case.get("plan", 0))
+    main2 = desc2["main_variant"] if case.get("use_main") else None
+    text3 = must("dumps-after-change", tim.dump_text, obj, main2)
+    third = TreeInfo()
+    must("loads-after-change", third.loads, text3)
+    d = diff(tim.expected_snapshot(desc2), must("snapshot", tim.snapshot, third))
+    check(d is None, "reread-differs-after-change", lambda: "tree written, changed in place and written again: expected(changed description) vs re-read tree: %s" % d)
+    d = diff(tim.expected_ini(desc2, main2), must("stdlib-read", tim.read_ini, text3))
+    check(d is None, "file-differs-after-change", lambda: "reference INI model vs file after an in-place change: %s" % d)
+    poison(obj), poison(again), poison(third)
     return {"nontrivial": tim.is_nontrivial(desc), "labels": tim.labels(desc)}
 
 
